@@ -23,7 +23,7 @@ META = {
                    'must equal runs on their contiguous copies; (d) finite_scat - every reciprocal atom created by the symbolic forward run of a scattering layer (magbias 0 and 0.01) has an argument whose interval enclosure over |x| <= 1 excludes 0, else an exact witness (all-zero / one-pixel image) is replayed on real torch in float32 and float64 and must give a non-finite output to be reported (interval / witness decision, no z3 query; the unchanged library divides nowhere in these passes). NOT decided: floating-point rounding of the arithmetic inside ATen/oneDNN kernels.',
     'bounds': {'added_families': ['finite_scat: ScatLayer 4x4 (C=1; colour C=3), ScatLayerj2 8x8, magbias in {0, 0.01}', 'stride-0 expanded channel view', 'ScatLayer view checks (expand, chlast, transposed, chanslice)'],
                'quick': {'transforms': KINDS, 'configs per transform': 2, 'precision combinations': 8, 'views': ['x[..., ::2]', 'transposed', 'channel slice of a wider tensor', 'batch-offset slice', 'channels_last / NHWC-permuted storage']},
-               'thorough': {'configs per transform': 5}},
+               'thorough': {'configs per transform': 5, 'finite_scat': 'also 4 biorts x (6x6, 5x7, 2x2) C=2, second order 8x16 and colour 8x8, magbias 0'}},
     'outside': 'rounding/accumulation order inside kernels (a cancellation-prone reformulation is invisible here); half/bfloat16 kernels; CUDA',
     'assumptions': ['real-arithmetic semantics with exact float32 quantisation of constants', 'NumPy strides stand in for torch strides (.view raises on the same layouts)'],
 }
@@ -73,6 +73,11 @@ def configs(tier, seed):
     if tier == 'thorough':
         out.append(dict(kind='scat2', check='quant_scat', biort='near_sym_b_bp', qshift='qshift_b_bp', magbias=0.01, H=8, W=8))
         out.append(dict(kind='scat1', check='quant_scat', biort='antonini', magbias=1.0, H=6, W=6))
+        for bi in ('near_sym_b', 'antonini', 'legall', 'near_sym_b_bp'):
+            for (h, w) in ((6, 6), (5, 7), (2, 2)):
+                out.append(dict(kind='scat1', check='finite_scat', biort=bi, magbias=0.0, H=h, W=w, C=2))
+        out.append(dict(kind='scat2', check='finite_scat', biort='near_sym_b', qshift='qshift_b', magbias=0.0, H=8, W=16, C=1))
+        out.append(dict(kind='scat2', check='finite_scat', biort='near_sym_a', qshift='qshift_a', magbias=0.0, H=8, W=8, C=3, colour=True))
     return out
 
 
